@@ -110,6 +110,26 @@ pub fn attach(bytes: &[u8], o: DwarfOpts) -> Option<Vec<u8>> {
     }
 }
 
+/// a compile unit with a name and nothing else (for modules without code)
+pub fn attach_minimal(bytes: &[u8], version: u16) -> Vec<u8> {
+    let encoding = Encoding { format: Format::Dwarf32, version, address_size: 4 };
+    let mut dwarf = gw::DwarfUnit::new(encoding);
+    let root = dwarf.unit.root();
+    dwarf.unit.get_mut(root).set(gimli::DW_AT_name, gw::AttributeValue::String(b"nocode.c".to_vec()));
+    let mut sections = gw::Sections::new(gw::EndianVec::new(LittleEndian));
+    let mut out = bytes.to_vec();
+    if dwarf.write(&mut sections).is_ok() {
+        let _ = sections.for_each(|id, data| -> Result<(), ()> {
+            if !data.slice().is_empty() {
+                let sec = wasm_encoder::CustomSection { name: id.name().into(), data: data.slice().into() };
+                wasm_encoder::Section::append_to(&sec, &mut out);
+            }
+            Ok(())
+        });
+    }
+    out
+}
+
 /// line rows and subprograms found in a binary's .debug_* sections
 pub fn read_back(bytes: &[u8]) -> Result<(Vec<Json>, Vec<Json>), String> {
     let mut secs: std::collections::HashMap<String, Vec<u8>> = Default::default();
